@@ -128,6 +128,24 @@ class Ref:
         excluded = self.excluded_levels(constraints)
         combos = list(itertools.product(*[self.level_names[f] for f in crossing]))
         simple = [f for f in crossing if not self.is_complex(f)]
+        # a level of a crossed COMPLEX-window factor that no window input selects at all (the library reports
+        # "No matches to the crossed factor ... predicate"): with require_complete_crossing the design has no valid
+        # sequence; without it the documentation allows a reduced crossing but the library keeps its size -> ambiguous
+        self.unmatched_complex = False
+        for f in crossing:
+            if f in self.derived and self.is_complex(f):
+                d = self.derived[f]
+                w = self.win[f][0]
+                per_arg = [list(itertools.product(self.level_names[a], repeat=w)) for a in d["args"]]
+                hit = set()
+                for key in itertools.product(*per_arg):
+                    k = [list(x) for x in key] if w > 1 else [x[0] for x in key]
+                    v = S.table_index(d, k)
+                    for i in (v if isinstance(v, list) else [v]):
+                        if isinstance(i, int):
+                            hit.add(i)
+                if len(hit) < len(d["levels"]):
+                    self.unmatched_complex = True
 
         def possible(honour):
             tas = self._trial_assignments(design, excluded, honour)
@@ -181,6 +199,10 @@ class Ref:
                 w *= self.level_weight[f][l]
             weight[c] = w
         removed = len(poss) != len(combos)
+        if self.unmatched_complex:
+            removed = True
+            if not rcc:
+                self.amb("unmatched-level-of-crossed-complex-factor")
         indirect = poss_a != direct_b or poss_b != direct_b or poss_sep != direct_b
         p = max([self.start[f] for f in crossing], default=0)
         return {"factors": list(crossing), "poss": weight, "S": sum(weight.values()), "p": p, "removed": removed,
